@@ -213,9 +213,9 @@ where
     par_run_watched(n, threads, 0, &|_| {}, f)
 }
 
-/// Like `par_run`, with a wall-clock watchdog: when one index runs longer than `timeout_s`
-/// seconds `on_hang(index)` is called from the monitor thread (it is expected to report and exit
-/// the process, the stuck thread cannot be recovered).
+/// Like `par_run`, with a watchdog on the CPU time of each worker thread (not on the wall clock: the verdict must not depend on
+/// how busy the machine is): when one index has consumed more than `timeout_s` seconds of CPU time `on_hang(index)` is called
+/// from the monitor thread (it is expected to report and exit the process, the stuck thread cannot be recovered).
 pub fn par_run_watched<F>(n: u64, threads: usize, timeout_s: u64, on_hang: &(dyn Fn(u64) + Sync), f: F) -> Report
 where
     F: Fn(u64, &mut Report) + Sync,
@@ -226,16 +226,24 @@ where
     let live = AtomicUsize::new(threads);
     // per thread: (current index + 1, start time in ms since `t0`)
     let beats: Vec<(AtomicU64, AtomicU64)> = (0..threads).map(|_| (AtomicU64::new(0), AtomicU64::new(0))).collect();
+    // kernel thread ids of the workers (for /proc/self/task/<tid>/stat)
+    let tids: Vec<AtomicU64> = (0..threads).map(|_| AtomicU64::new(0)).collect();
     let t0 = std::time::Instant::now();
     std::thread::scope(|s| {
         for t in 0..threads {
             let b = std::thread::Builder::new().stack_size(256 << 20);
             let beats = &beats;
+            let tids = &tids;
             let next = &next;
             let total = &total;
             let live = &live;
             let f = &f;
             b.spawn_scoped(s, move || {
+                if let Ok(l) = std::fs::read_link("/proc/thread-self") {
+                    if let Some(t2) = l.file_name().and_then(|x| x.to_str()).and_then(|x| x.parse::<u64>().ok()) {
+                        tids[t].store(t2, Ordering::SeqCst);
+                    }
+                }
                 let mut rep = Report::new();
                 loop {
                     let start = next.fetch_add(chunk, Ordering::SeqCst);
@@ -261,16 +269,43 @@ where
         }
         if timeout_s > 0 {
             let beats = &beats;
+            let tids = &tids;
             let live = &live;
             s.spawn(move || {
+                let cpu_ms = |tid: u64| -> Option<u64> {
+                    let st = std::fs::read_to_string(format!("/proc/self/task/{}/stat", tid)).ok()?;
+                    let rest = &st[st.rfind(')')? + 2..];
+                    let f: Vec<&str> = rest.split(' ').collect();
+                    let ut: u64 = f.get(11)?.parse().ok()?;
+                    let stt: u64 = f.get(12)?.parse().ok()?;
+                    Some((ut + stt) * 10)
+                };
+                // per thread: (index seen at the previous poll, CPU time of the thread when that index was first seen twice)
+                let mut watch: Vec<(u64, Option<u64>)> = vec![(0, None); beats.len()];
                 while live.load(Ordering::SeqCst) > 0 {
                     std::thread::sleep(std::time::Duration::from_millis(200));
                     let now = t0.elapsed().as_millis() as u64;
-                    for b in beats.iter() {
+                    for (t, b) in beats.iter().enumerate() {
                         let idx = b.0.load(Ordering::SeqCst);
                         let st = b.1.load(Ordering::SeqCst);
-                        if idx > 0 && now > st + timeout_s * 1000 && b.0.load(Ordering::SeqCst) == idx {
-                            on_hang(idx - 1);
+                        if idx == 0 || idx != watch[t].0 {
+                            watch[t] = (idx, None);
+                            continue;
+                        }
+                        let tid = tids[t].load(Ordering::SeqCst);
+                        match (cpu_ms(tid), watch[t].1) {
+                            (Some(c), None) => watch[t].1 = Some(c),
+                            (Some(c), Some(c0)) => {
+                                if c > c0 + timeout_s * 1000 && b.0.load(Ordering::SeqCst) == idx {
+                                    on_hang(idx - 1);
+                                }
+                            }
+                            // no CPU accounting available: fall back to twenty times the limit on the wall clock
+                            (None, _) => {
+                                if now > st + timeout_s * 20_000 && b.0.load(Ordering::SeqCst) == idx {
+                                    on_hang(idx - 1);
+                                }
+                            }
                         }
                     }
                 }
